@@ -62,6 +62,13 @@ theorem termLate_pop (h : Inv cs v c) (hp : c.prog = x :: rest) (hne : x ≠ .ma
     have := hs.no_cross mem_milestones_markClosed (by omega) hne
     omega
 
+theorem renamed_pop (h : Inv cs v c) (hp : c.prog = x :: rest) (hle : rank x ≤ 24)
+    (hne : x ≠ .op (.renameDir .temp .final)) : hr rest ≠ 25 := by
+  have hs : Shape (x :: rest) := hp ▸ h.shape
+  have h24 : rank (Item.op (.renameDir .temp .final)) = 24 := rfl
+  have := hs.no_cross mem_milestones_rename (by omega) hne
+  omega
+
 end pop
 
 
@@ -212,13 +219,14 @@ theorem main_pop {cs : List Chunk} {v : Variant} {c : Cfg} {x : Item} {rest : Li
 /-- a late item that changes nothing but the program -/
 theorem inv_late_pop {cs : List Chunk} {v : Variant} {c : Cfg} {x : Item} {rest : List Item} (h : Inv cs v c)
     (hp : c.prog = x :: rest) (hx16 : 16 ≤ rank x) (hnq : x ≠ .waitQuiet) (hnm : x ≠ .markClosed)
-    (hnf : x ≠ .flushWrite .last)
+    (hnf : x ≠ .flushWrite .last) (hx24 : rank x ≤ 24) (hnr : x ≠ .op (.renameDir .temp .final))
     (hmain : c.handling = false → hr rest ≤ 25 → Main cs v { c with prog := rest }) :
     Inv cs v { c with prog := rest } := by
   have hs : Shape (x :: rest) := hp ▸ h.shape
   have hge : rank x ≤ hr rest := hs.hr_rest_ge
   refine inv_late hs.tail (by simp only; omega) h.wtemp (quiet_pop (c := c) h hp hnq) (closed_pop (c := c) h hp hnm)
     (synced_pop (c := c) h hp hnf) h.safe h.handTerm ?_ (tempSome_pop (c := c) h hp hx16) (termLate_pop (c := c) h hp hnm)
+    (fun h25 => absurd h25 (renamed_pop (c := c) h hp hx24 hnr))
   intro hh _ h25
   exact hmain hh h25
 
@@ -234,9 +242,11 @@ theorem inv_pass {cs : List Chunk} {v : Variant} {c : Cfg} {x : Item} {rest : Li
     Inv cs v { c with prog := rest } := by
   have hs : Shape (x :: rest) := hp ▸ h.shape
   have hx16 : 16 ≤ rank x := by rcases hx with rfl | rfl | rfl | rfl <;> simp [rank]
-  refine inv_late_pop h hp hx16 ?_ ?_ ?_ ?_
+  refine inv_late_pop h hp hx16 ?_ ?_ ?_ ?_ ?_ ?_
   · rcases hx with rfl | rfl | rfl | rfl <;> simp
   · rcases hx with rfl | rfl | rfl | rfl <;> simp
+  · rcases hx with rfl | rfl | rfl | rfl <;> simp
+  · rcases hx with rfl | rfl | rfl | rfl <;> simp [rank]
   · rcases hx with rfl | rfl | rfl | rfl <;> simp
   · intro hh _
     refine main_pop (main_of_inv h hp hx16 hh) hp hs.hr_rest_ge ?_ ?_ ?_ ?_ hj hw
@@ -257,6 +267,7 @@ theorem inv_append {cs : List Chunk} {v : Variant} {c : Cfg} {ci : ChunkInfo} {r
     simpa [rank] using this
   refine inv_late hs.tail (by simp only; omega) h.wtemp ?_ ?_ ?_ h.safe h.handTerm ?_
     (tempSome_pop (c := c) h hp (by simp [rank])) (by intro h19 _; simp only at h19; omega)
+    (by intro h25; simp only at h25; omega)
   · intro h18 _; simp only at h18; omega
   · intro h19 _; simp only at h19; omega
   · intro h23 _; simp only at h23; omega
@@ -288,7 +299,7 @@ theorem inv_markClosed {cs : List Chunk} {v : Variant} {c : Cfg} {rest : List It
     have := hs.no_cross mem_milestones_fwLast (by simp [rank]) (by simp)
     simpa [rank] using this
   refine inv_late hs.tail (by simp only; omega) h.wtemp (quiet_pop (c := c) h hp (by simp)) ?_ ?_ h.safe ?_ ?_
-    (tempSome_pop (c := c) h hp (by simp [rank])) (by intro _ _; rfl)
+    (tempSome_pop (c := c) h hp (by simp [rank])) (by intro _ _; rfl) (by intro h25; simp only at h25; omega)
   · intro _ _; exact ⟨rfl, rfl⟩
   · intro h23 _; simp only at h23; omega
   · intro _; rfl
@@ -313,6 +324,7 @@ theorem inv_waitQuiet {cs : List Chunk} {v : Variant} {c : Cfg} {rest : List Ite
     simpa [rank] using this
   refine inv_late hs.tail (by simp only; omega) h.wtemp ?_ ?_ ?_ h.safe h.handTerm ?_
     (tempSome_pop (c := c) h hp (by simp [rank])) (by intro h19 _; simp only at h19; omega)
+    (by intro h25; simp only at h25; omega)
   · intro _ _; exact anyRunning_false hq
   · intro h19 _; simp only at h19; omega
   · intro h23 _; simp only at h23; omega
@@ -326,7 +338,7 @@ theorem inv_finish {cs : List Chunk} {v : Variant} {c : Cfg} {rest : List Item} 
   have hs : Shape (.finish :: rest) := hp ▸ h.shape
   have hgt : 25 < hr rest := by have := hs.hr_rest_gt (by simp [rank]) (by simp [rank]); simpa [rank] using this
   refine inv_late hs.tail (by simp only; omega) h.wtemp ?_ ?_ ?_ h.safe h.handTerm ?_
-    (by intro h24; simp only at h24; omega) (by intro _ h25; simp only at h25; omega)
+    (by intro h24; simp only at h24; omega) (by intro _ h25; simp only at h25; omega) (by intro h25; simp only at h25; omega)
   · intro _ h25; simp only at h25; omega
   · intro _ h25; simp only at h25; omega
   · intro _ h24; simp only at h24; omega
@@ -365,6 +377,7 @@ theorem inv_submit {cs : List Chunk} {v : Variant} {c : Cfg} {i : Nat} {ops : Li
     simpa [okItem] using this
   refine inv_late hs.tail (by simp only; omega) ?_ ?_ ?_ ?_ h.safe h.handTerm ?_
     (tempSome_pop (c := c) h hp (by simp [rank])) (by intro h19 _; simp only at h19; omega)
+    (by intro h25; simp only at h25; omega)
   · intro w hw o ho
     rcases List.mem_append.mp hw with hw | hw
     · exact h.wtemp w hw o ho
@@ -555,6 +568,9 @@ theorem inv_flush {cs : List Chunk} {v : Variant} {c : Cfg} {x : Item} {rest : L
     obtain ⟨hfin, t, t', ht, ht', hag, hwr, hcl⟩ := apply_mdOp hoo ha
     refine inv_late hs.tail (by simp only; omega) h.wtemp (quiet_pop (c := c) h hp hnq) (closed_pop (c := c) h hp hnm)
       ?_ ?_ h.handTerm ?_ (by intro _; simp [ht']) (termLate_pop (c := c) h hp hnm)
+      (fun h25 => absurd h25 (renamed_pop (c := c) h hp
+        (by rcases hxo with ⟨p, rfl, _⟩ | ⟨p, rfl, _⟩ | ⟨p, rfl, _⟩ <;> cases p <;> simp [rank])
+        (by rcases hxo with ⟨_, rfl, _⟩ | ⟨_, rfl, _⟩ | ⟨_, rfl, _⟩ <;> simp)))
     · -- the metadata file equals the metadata in memory from the final write on
       intro h23 h24
       simp only at h23 h24
@@ -753,6 +769,7 @@ theorem inv_rename {cs : List Chunk} {v : Variant} {c : Cfg} {rest : List Item} 
     obtain ⟨hend, hexc⟩ := h.closedMd (by omega) (by omega)
     refine inv_late hs.tail (by simp only; omega) h.wtemp ?_ ?_ ?_ ?_ h.handTerm ?_
       (by intro h24; simp only at h24; omega) (by intro _ _; exact h.termLate (by omega) (by omega))
+      (by intro _; exact ⟨t, hfin, hmd⟩)
     · intro _ h25; exact h.quiet (by omega) (by omega)
     · intro _ _; exact ⟨hend, hexc⟩
     · intro _ h24; simp only at h24; omega
@@ -803,6 +820,7 @@ theorem inv_unlink {cs : List Chunk} {v : Variant} {c : Cfg} {i : Nat} {rest : L
     obtain ⟨hfin, t, ht, ht'⟩ := apply_unlinkTemp ha
     refine inv_late hs.tail (by simp only; omega) h.wtemp ?_ ?_ ?_ ?_ h.handTerm ?_
       (by intro _; simp [ht']) (by intro _ _; exact h.termLate (by omega) (by omega))
+      (by intro h25; simp only at h25; omega)
     · intro _ _; exact h.quiet (by omega) (by omega)
     · intro _ _; exact h.closedMd (by omega) (by omega)
     · intro h23 _; simp only at h23; omega
@@ -1062,6 +1080,7 @@ theorem inv_readInfo {cs : List Chunk} {v : Variant} {c : Cfg} {i : Nat} {rest :
     simpa [rank] using this
   refine inv_late hs.tail (by simp only; omega) h.wtemp ?_ ?_ ?_ h.safe h.handTerm ?_
     (tempSome_pop (c := c) h hp (by simp [rank])) (by intro _ _; exact h.termLate (by omega) (by omega))
+    (by intro h25; simp only at h25; omega)
   · intro _ _; exact h.quiet (by omega) (by omega)
   · intro _ _; exact h.closedMd (by omega) (by omega)
   · intro h23 _; simp only at h23; omega
@@ -1182,7 +1201,7 @@ theorem inv_collect {cs : List Chunk} {v : Variant} {c : Cfg} {rest : List Item}
   have hle : hr (collectItems (collectList t) ++ rest) ≤ 22 := by
     have := hs'.sorted.hr_le_mem (.flushWrite .last) (by simp [hfw])
     simpa [rank] using this
-  refine inv_late hs' (by simp only; omega) h.wtemp ?_ ?_ ?_ h.safe h.handTerm ?_ ?_ ?_
+  refine inv_late hs' (by simp only; omega) h.wtemp ?_ ?_ ?_ h.safe h.handTerm ?_ ?_ ?_ (by intro h25; simp only at h25; omega)
   · intro _ _; exact h.quiet (by omega) (by omega)
   · intro _ _; exact h.closedMd (by omega) (by omega)
   · intro h23 _; simp only at h23; omega
@@ -1360,5 +1379,382 @@ theorem apply_tempOp {fs fs' : FS} {o : Op} (ho : tempOp o = true) (h : apply fs
       · simp at h
     · simp at h
   | _ => simp [tempOp] at ho
+
+
+
+/-- the operations of a forked copy after the data file -/
+def tailOps (i : Nat) (c : Chunk) : List Op :=
+  [.openTrunc .temp (.cmeta i), .write .temp (.cmeta i) (.info (infoOf i c)), .close .temp (.cmeta i)]
+  ++ (if i = 0 then [.openTrunc .temp .md, .write .temp .md (.json ⟨[infoOf i c], false, false⟩), .close .temp .md]
+      else [])
+
+theorem forkOps_eq (i : Nat) (c : Chunk) :
+    forkOps i c = (if c.rows.isEmpty then [] else writeOps i c.rows) ++ tailOps i c := by
+  simp [forkOps, tailOps, List.append_assoc]
+
+theorem forkOps_drop_dataLen (i : Nat) (c : Chunk) : (forkOps i c).drop (dataLen c) = tailOps i c := by
+  rw [forkOps_eq]
+  unfold dataLen
+  split <;> simp [writeOps]
+
+/-- the data-file part of the standard operations -/
+theorem stdOps_take4 {v : Variant} {i : Nat} {c : Chunk} (h : c.rows.isEmpty = false) :
+    (stdOps v i c).take 4 = writeOps i c.rows := by
+  cases v <;> simp [stdOps, forkOps, h, writeOps]
+
+theorem getElem?_of_drop {α : Type} {l : List α} {n : Nat} {o : α} {rest : List α} (h : l.drop n = o :: rest) : l[n]? = some o := by
+  have := congrArg List.head? h
+  simpa [List.head?_drop] using this
+
+/-- positions ≥ 4 of a writer for a non-empty chunk belong to the metadata part of a forked copy -/
+theorem std_late_mem {v : Variant} {i : Nat} {c : Chunk} {n : Nat} {o : Op} {rest : List Op} (hne : c.rows.isEmpty = false)
+    (hd : (stdOps v i c).drop n = o :: rest) (hn : 4 ≤ n) : v = .forked ∧ o ∈ tailOps i c := by
+  have hg := getElem?_of_drop hd
+  cases v with
+  | forked =>
+    refine ⟨rfl, ?_⟩
+    simp only [stdOps, forkOps_eq, hne] at hg
+    have : writeOps i c.rows ++ tailOps i c = writeOps i c.rows ++ tailOps i c := rfl
+    rw [List.getElem?_append_right (by simp [writeOps]; omega)] at hg
+    exact List.mem_of_getElem? hg
+  | serial =>
+    have hlt : n < (stdOps .serial i c).length := (List.getElem?_eq_some_iff.mp hg).1
+    simp [stdOps, writeOps] at hlt; omega
+  | executor =>
+    have hlt : n < (stdOps .executor i c).length := (List.getElem?_eq_some_iff.mp hg).1
+    simp [stdOps, writeOps] at hlt; omega
+
+theorem tailOps_names {i : Nat} {c : Chunk} {o : Op} (h : o ∈ tailOps i c) : ∀ x ∈ opNames o, x = .cmeta i ∨ x = .md := by
+  simp only [tailOps, List.mem_append, List.mem_cons, List.mem_nil_iff, or_false] at h
+  rcases h with (rfl | rfl | rfl) | h
+  · simp [opNames]
+  · simp [opNames]
+  · simp [opNames]
+  · split at h
+    · simp only [List.mem_cons, List.mem_nil_iff, or_false] at h
+      rcases h with rfl | rfl | rfl <;> simp [opNames]
+    · simp at h
+
+/-- one more operation of a writer: the facts move on by one position -/
+theorem wfacts_step {v : Variant} {i : Nat} {c : Chunk} {n : Nat} {o : Op} {rest : List Op} {b : Bool} {t t' : Dir}
+    (hd : (stdOps v i c).drop n = o :: rest)
+    (hag : ∀ x, x ∉ opNames o → t'.get x = t.get x)
+    (hwr : ∀ n' c', o = .write .temp n' c' → t'.get n' = some c')
+    (hrn : ∀ a b', o = .rename .temp a b' → t'.get b' = t.get a)
+    (h : WFacts v t i c n b) : WFacts v t' i c (n + 1) b := by
+  obtain ⟨h1, h2, h3⟩ := h
+  have hg := getElem?_of_drop hd
+  refine ⟨?_, ?_, ?_⟩
+  · intro hne h2' h3'
+    have h4 := stdOps_take4 (v := v) (i := i) hne
+    have hn : n = 1 ∨ n = 2 := by omega
+    have hg' : (writeOps i c.rows)[n]? = some o := by
+      rw [← h4, List.getElem?_take_of_lt (by omega)]; exact hg
+    rcases hn with rfl | rfl
+    · simp [writeOps] at hg'
+      exact hwr _ _ hg'.symm
+    · simp [writeOps] at hg'
+      subst hg'
+      rw [hag _ (by simp [opNames])]
+      exact h1 hne (by omega) (by omega)
+  · intro hne h4'
+    by_cases hn3 : n = 3
+    · subst hn3
+      have h4 := stdOps_take4 (v := v) (i := i) hne
+      have hg' : (writeOps i c.rows)[3]? = some o := by
+        rw [← h4, List.getElem?_take_of_lt (by omega)]; exact hg
+      simp [writeOps] at hg'
+      rw [hrn _ _ hg'.symm]
+      exact h1 hne (by omega) (by omega)
+    · obtain ⟨_, hmem⟩ := std_late_mem hne hd (by omega)
+      rw [hag _ (by intro hx; rcases tailOps_names hmem _ hx with h | h <;> cases h)]
+      exact h2 hne (by omega)
+  · intro hv hb hle
+    subst hv
+    simp only [stdOps] at hd
+    have hdl : dataLen c ≤ n := by omega
+    -- position relative to the metadata part
+    have hd' : (tailOps i c).drop (n - dataLen c) = o :: rest := by
+      rw [← forkOps_drop_dataLen, List.drop_drop]
+      have : dataLen c + (n - dataLen c) = n := by omega
+      rw [this]; exact hd
+    have hg' := getElem?_of_drop hd'
+    by_cases hn1 : n = dataLen c + 1
+    · have : n - dataLen c = 1 := by omega
+      rw [this] at hg'
+      simp [tailOps] at hg'
+      exact hwr _ _ hg'.symm
+    · have hn2 : 2 ≤ n - dataLen c := by omega
+      have hmem : o ∈ (tailOps i c).drop 2 := by
+        have := List.mem_of_getElem? hg'
+        have hsplit : tailOps i c = (tailOps i c).take 2 ++ (tailOps i c).drop 2 := (List.take_append_drop 2 _).symm
+        rw [hsplit, List.getElem?_append_right (by simp [tailOps]; omega)] at hg'
+        exact List.mem_of_getElem? hg'
+      have hnot : Name.cmeta i ∉ opNames o := by
+        simp only [tailOps, List.cons_append, List.nil_append, List.drop_succ_cons, List.drop_zero, List.mem_cons] at hmem
+        rcases hmem with rfl | hmem
+        · simp [opNames]
+        · split at hmem
+          · simp only [List.mem_cons, List.mem_nil_iff, or_false] at hmem
+            rcases hmem with rfl | rfl | rfl <;> simp [opNames]
+          · simp at hmem
+      rw [hag _ hnot]
+      exact h3 rfl hb (by omega)
+
+
+
+theorem mem_set_cases {α : Type} {l : List α} {k : Nat} {a w' : α} (h : a ∈ l.set k w') :
+    a = w' ∨ ∃ p, p ≠ k ∧ l[p]? = some a := by
+  obtain ⟨p, hp⟩ := List.mem_iff_getElem?.mp h
+  rw [List.getElem?_set] at hp
+  split at hp
+  · split at hp
+    · left; injection hp with hp; exact hp.symm
+    · simp at hp
+  · right; exact ⟨p, by omega, hp⟩
+
+theorem nodup_map_ne {l : List Worker} {p k : Nat} {a w : Worker} (hn : (l.map (·.i)).Nodup) (hp : l[p]? = some a)
+    (hk : l[k]? = some w) (hne : p ≠ k) : a.i ≠ w.i := by
+  intro he
+  obtain ⟨hpl, hpa⟩ := List.getElem?_eq_some_iff.mp hp
+  obtain ⟨hkl, hkw⟩ := List.getElem?_eq_some_iff.mp hk
+  have h1 : (l.map (·.i))[p]'(by simpa using hpl) = a.i := by simp [hpa]
+  have h2 : (l.map (·.i))[k]'(by simpa using hkl) = w.i := by simp [hkw]
+  have := (List.getElem_inj (i := p) (j := k) (h₀ := by simpa using hpl) (h₁ := by simpa using hkl) hn).mp (by rw [h1, h2, he])
+  exact hne this
+
+theorem map_i_set {l : List Worker} {k : Nat} {w w' : Worker} (hk : l[k]? = some w) (hi : w'.i = w.i) :
+    (l.set k w').map (·.i) = l.map (·.i) := by
+  rw [List.map_set]
+  apply List.ext_getElem?
+  intro p
+  rw [List.getElem?_set]
+  split
+  · rename_i hpk
+    subst hpk
+    obtain ⟨hkl, hkw⟩ := List.getElem?_eq_some_iff.mp hk
+    simp [hkl, hi, hkw]
+  · rfl
+
+theorem mem_set_self_of {l : List Worker} {k : Nat} {w w' : Worker} (hk : l[k]? = some w) : w' ∈ l.set k w' := by
+  have hkl := (List.getElem?_eq_some_iff.mp hk).1
+  exact List.mem_iff_getElem?.mpr ⟨k, by simp [hkl]⟩
+
+theorem stdOps_names {v : Variant} {i : Nat} {c : Chunk} {o : Op} (h : o ∈ stdOps v i c) :
+    (∀ x ∈ opNames o, x = .tmp i ∨ x = .chunk i ∨ x = .cmeta i ∨ x = .md) ∧
+    (v ≠ .forked → ∀ x ∈ opNames o, x = .tmp i ∨ x = .chunk i) := by
+  have hw : ∀ rs, o ∈ writeOps i rs → ∀ x ∈ opNames o, x = .tmp i ∨ x = .chunk i := by
+    intro rs ho
+    simp only [writeOps, List.mem_cons, List.mem_nil_iff, or_false] at ho
+    rcases ho with rfl | rfl | rfl | rfl <;> simp [opNames]
+  cases v with
+  | forked =>
+    refine ⟨?_, fun h => absurd rfl h⟩
+    simp only [stdOps, forkOps_eq, List.mem_append] at h
+    rcases h with h | h
+    · split at h
+      · simp at h
+      · intro x hx; rcases hw _ h x hx with h | h <;> simp [h]
+    · intro x hx; rcases tailOps_names h x hx with h | h <;> simp [h]
+  | serial =>
+    simp only [stdOps] at h
+    exact ⟨fun x hx => by rcases hw _ h x hx with h | h <;> simp [h], fun _ => hw _ h⟩
+  | executor =>
+    simp only [stdOps] at h
+    exact ⟨fun x hx => by rcases hw _ h x hx with h | h <;> simp [h], fun _ => hw _ h⟩
+
+theorem WFacts_congr3 {v : Variant} {t t' : Dir} {i : Nat} {c : Chunk} {n : Nat} {b : Bool}
+    (hag : ∀ x, x = .tmp i ∨ x = .chunk i ∨ x = .cmeta i → t'.get x = t.get x) (h : WFacts v t i c n b) :
+    WFacts v t' i c n b := by
+  obtain ⟨h1, h2, h3⟩ := h
+  refine ⟨?_, ?_, ?_⟩
+  · intro a b' c'; rw [hag _ (Or.inl rfl)]; exact h1 a b' c'
+  · intro a b'; rw [hag _ (Or.inr (Or.inl rfl))]; exact h2 a b'
+  · intro a b' c'; rw [hag _ (Or.inr (Or.inr rfl))]; exact h3 a b' c'
+
+
+
+/-- the main-path facts when the k-th chunk writer makes a step (successful or not) -/
+theorem main_wrk {cs : List Chunk} {v : Variant} {c : Cfg} (m : Main cs v c) {k : Nat} {w w' : Worker} {fs' : FS}
+    (hk : c.workers[k]? = some w) (hi : w'.i = w.i) (hrun : w.st = .running) (hlow : hr c.prog ≤ 17)
+    (hw' : w'.st ≠ .failed → ∃ (hj : w'.i < cs.length) (n : Nat), w'.ops = (stdOps v w'.i cs[w'.i]).drop n ∧
+        n ≤ (stdOps v w'.i cs[w'.i]).length ∧ (w'.st = .ok ↔ w'.ops = []) ∧
+        ∀ t', fs'.temp = some t' → WFacts v t' w'.i cs[w'.i] n (!notCollected c.prog))
+    (hfs : ∀ t', fs'.temp = some t' → ∃ t, c.fs.temp = some t ∧
+        (∀ x, x ≠ .tmp w.i → x ≠ .chunk w.i → x ≠ .cmeta w.i → x ≠ .md → t'.get x = t.get x) ∧
+        (v ≠ .forked → ∀ j, t'.get (.cmeta j) = t.get (.cmeta j))) :
+    Main cs v { c with fs := fs', workers := c.workers.set k w' } := by
+  have hmap := map_i_set hk hi
+  have hwmem : w ∈ c.workers := List.mem_of_getElem? hk
+  have hndw : (c.workers.map (·.i)).Nodup := (List.nodup_append.mp m.nodup).1
+  have hmemi : ∀ j, (∃ a ∈ c.workers, a.i = j) → ∃ a ∈ c.workers.set k w', a.i = j := by
+    intro j ⟨a, ha, hai⟩
+    have : j ∈ (c.workers.set k w').map (·.i) := by rw [hmap]; exact List.mem_map.mpr ⟨a, ha, hai⟩
+    obtain ⟨a', ha', hai'⟩ := List.mem_map.mp this
+    exact ⟨a', ha', hai'⟩
+  constructor
+  · exact m.chunksMd
+  · intro j hj hn
+    rcases m.cover j hj hn with hc | hw
+    · exact Or.inl hc
+    · exact Or.inr (hmemi j hw)
+  · show ((c.workers.set k w').map (·.i) ++ submitIdx c.prog).Nodup
+    rw [hmap]; exact m.nodup
+  · exact m.substd
+  · intro a ha hf
+    rcases mem_set_cases ha with rfl | ⟨p, hpk, hp⟩
+    · exact hw' hf
+    · have ham : a ∈ c.workers := List.mem_of_getElem? hp
+      obtain ⟨hj, n, h1, h2, h3, h4⟩ := m.wstd a ham hf
+      refine ⟨hj, n, h1, h2, h3, ?_⟩
+      intro t' ht'
+      obtain ⟨t, ht, hag, _⟩ := hfs t' ht'
+      have hne : a.i ≠ w.i := nodup_map_ne hndw hp hk hpk
+      refine WFacts_congr3 ?_ (h4 t ht)
+      intro x hx
+      apply hag x <;> (rcases hx with rfl | rfl | rfl <;> simp [hne])
+  · -- failures stay awaited
+    cases v with
+    | serial =>
+      have ha := m.awaited
+      simp only [Awaited] at ha ⊢
+      have hkl : k < c.workers.length := (List.getElem?_eq_some_iff.mp hk).1
+      have hlast : k = c.workers.length - 1 := by
+        by_cases hlt : k < c.workers.length - 1
+        · have : c.workers.dropLast[k]? = some w := by rw [List.getElem?_dropLast]; simp [hlt, hk]
+          have := ha.1 w (List.mem_of_getElem? this)
+          rw [hrun] at this; cases this
+        · omega
+      have hgl : c.workers.getLast? = some w := by rw [List.getLast?_eq_getElem?, ← hlast]; exact hk
+      refine ⟨?_, ?_⟩
+      · intro a hm
+        have : (c.workers.set k w').dropLast = c.workers.dropLast := by
+          rw [List.dropLast_eq_take, List.dropLast_eq_take, List.length_set, List.take_set_of_le (by omega)]
+        rw [this] at hm
+        exact ha.1 a hm
+      · intro a hl _
+        exact ha.2 w hgl (by rw [hrun]; simp)
+    | executor | forked =>
+      have ha := m.awaited
+      simp only [Awaited] at ha ⊢
+      rcases ha with hl | ⟨_, hok⟩
+      · exact Or.inl hl
+      · have := hok w hwmem; rw [hrun] at this; cases this
+  · intro i hi'
+    exfalso
+    have := (m.lateItems (Or.inl (by intro e; simp only at hi'; rw [e] at hi'; simp at hi'))).1
+    omega
+  · intro hn t' ht' j hj
+    obtain ⟨t, ht, hag, _⟩ := hfs t' ht'
+    by_cases hjw : j = w.i
+    · exact ⟨w', mem_set_self_of hk, by rw [hi, hjw]⟩
+    · have : t'.get (.cmeta j) = t.get (.cmeta j) := hag _ (by simp) (by simp) (by simp [hjw]) (by simp)
+      exact hmemi j (m.names hn t ht j (by rw [← this]; exact hj))
+  · exact m.mdOpen
+  · exact m.sj
+  · exact m.noApp
+  · exact m.noRead
+  · intro hv t' ht' j
+    obtain ⟨t, ht, _, hnc⟩ := hfs t' ht'
+    rw [hnc hv j]; exact m.nocmeta hv t ht j
+  · exact m.unl
+  · exact m.collectOnce
+  · exact m.lateItems
+
+
+
+/-- where a configuration with a running chunk writer can be -/
+theorem hr_of_running {cs : List Chunk} {v : Variant} {c : Cfg} (h : Inv cs v c) {w : Worker} (hw : w ∈ c.workers)
+    (hrun : w.st = .running) : 16 ≤ hr c.prog ∧ (hr c.prog ≤ 17 ∨ 26 ≤ hr c.prog) := by
+  refine ⟨?_, ?_⟩
+  · by_cases hk : hr c.prog ≤ 15
+    · have := h.nowork hk; rw [this] at hw; simp at hw
+    · omega
+  · by_cases hk : 18 ≤ hr c.prog ∧ hr c.prog ≤ 25
+    · exact absurd hrun (h.quiet hk.1 hk.2 w hw)
+    · omega
+
+/-- a chunk writer performs its next operation -/
+theorem inv_wrk_ok {cs : List Chunk} {v : Variant} {c : Cfg} {k : Nat} {w : Worker} {o : Op} {rest : List Op} {fs' : FS}
+    (h : Inv cs v c) (hk : c.workers[k]? = some w) (hrun : w.st = .running) (hops : w.ops = o :: rest)
+    (ha : apply c.fs o = .ok fs') :
+    Inv cs v { c with fs := fs', workers := c.workers.set k { w with ops := rest, st := if rest.isEmpty then .ok else .running } } := by
+  have hwm : w ∈ c.workers := List.mem_of_getElem? hk
+  obtain ⟨h16, hlow⟩ := hr_of_running h hwm hrun
+  have hto : tempOp o = true := h.wtemp w hwm o (by rw [hops]; simp)
+  obtain ⟨hfin, t, t', ht, ht', hag, _, hwr, hrn⟩ := apply_tempOp hto ha
+  refine inv_late h.shape (by simp only; omega) ?_ ?_ ?_ ?_ ?_ h.handTerm ?_ (by intro _; simp [ht']) h.termLate
+    (by intro h25; simp only at h25; omega)
+  · intro a ham o' ho'
+    rcases mem_set_cases ham with rfl | ⟨p, _, hp⟩
+    · exact h.wtemp w hwm o' (by rw [hops]; simp at ho' ⊢; exact Or.inr ho')
+    · exact h.wtemp a (List.mem_of_getElem? hp) o' ho'
+  · intro h18 h25; simp only at h18 h25; omega
+  · exact h.closedMd
+  · intro h23 h24; simp only at h23 h24; omega
+  · intro d hd; exact h.safe d (by simpa [hfin] using hd)
+  · intro hh _ h25
+    simp only at h25
+    have hl17 : hr c.prog ≤ 17 := by omega
+    have m := h.main hh h16 (by omega)
+    have hne : w.st ≠ .failed := by rw [hrun]; simp
+    obtain ⟨hj, n, h1, h2, h3, h4⟩ := m.wstd w hwm hne
+    have hd : (stdOps v w.i cs[w.i]).drop n = o :: rest := by rw [← h1, hops]
+    have hmem : o ∈ stdOps v w.i cs[w.i] := List.mem_of_mem_drop (by rw [hd]; simp)
+    have hnames := stdOps_names hmem
+    refine main_wrk m hk rfl hrun hl17 ?_ ?_
+    · intro _
+      refine ⟨hj, n + 1, ?_, ?_, ?_, ?_⟩
+      · show rest = _
+        have := congrArg List.tail hd
+        simpa [List.drop_drop, Nat.add_comm] using this.symm
+      · have hlen : n < (stdOps v w.i cs[w.i]).length := by
+          by_cases hlt : n < (stdOps v w.i cs[w.i]).length
+          · exact hlt
+          · rw [List.drop_eq_nil_of_le (by omega)] at hd; cases hd
+        show n + 1 ≤ (stdOps v w.i cs[w.i]).length
+        omega
+      · show (if rest.isEmpty then WSt.ok else WSt.running) = .ok ↔ rest = []
+        cases rest <;> simp
+      · intro t'' ht''
+        rw [ht'] at ht''; injection ht'' with ht''; subst ht''
+        exact wfacts_step hd hag hwr hrn (h4 t ht)
+    · intro t'' ht''
+      rw [ht'] at ht''; injection ht'' with ht''; subst ht''
+      refine ⟨t, ht, ?_, ?_⟩
+      · intro x h1' h2' h3' h4'
+        apply hag
+        intro hx
+        rcases hnames.1 x hx with h | h | h | h <;> contradiction
+      · intro hv j
+        apply hag
+        intro hx
+        rcases hnames.2 hv _ hx with h | h <;> cases h
+
+/-- a chunk writer's operation raises -/
+theorem inv_wrk_fail {cs : List Chunk} {v : Variant} {c : Cfg} {k : Nat} {w : Worker} (h : Inv cs v c)
+    (hk : c.workers[k]? = some w) (hrun : w.st = .running) :
+    Inv cs v { c with failed := true, workers := c.workers.set k { w with ops := [], st := .failed } } := by
+  have hwm : w ∈ c.workers := List.mem_of_getElem? hk
+  obtain ⟨h16, hlow⟩ := hr_of_running h hwm hrun
+  refine inv_late h.shape (by simp only; omega) ?_ ?_ h.closedMd ?_ h.safe h.handTerm ?_ (by intro h24; exact h.tempSome (by simp only at h24 ⊢; omega) (by simpa using h24)) h.termLate
+    (by intro h25; simp only at h25; omega)
+  · intro a ham o' ho'
+    rcases mem_set_cases ham with rfl | ⟨p, _, hp⟩
+    · simp at ho'
+    · exact h.wtemp a (List.mem_of_getElem? hp) o' ho'
+  · intro h18 h25; simp only at h18 h25; omega
+  · intro h23 h24; simp only at h23 h24; omega
+  · intro hh _ h25
+    simp only at h25
+    have hl17 : hr c.prog ≤ 17 := by omega
+    have m := h.main hh h16 (by omega)
+    have := main_wrk (fs' := c.fs) (w' := { w with ops := [], st := .failed }) m hk rfl hrun hl17
+      (by intro hne; simp at hne) (by intro t' ht'; exact ⟨t', ht', fun _ _ _ _ _ => rfl, fun _ _ => rfl⟩)
+    exact ⟨this.chunksMd, this.cover, this.nodup, this.substd, this.wstd,
+      awaited_congr (c1 := { c with workers := c.workers.set k { w with ops := [], st := .failed } }) rfl rfl
+        (awaited_congr (c2 := { c with workers := c.workers.set k { w with ops := [], st := .failed } }) rfl rfl this.awaited),
+      this.reads, this.names, this.mdOpen, this.sj, this.noApp, this.noRead, this.nocmeta, this.unl, this.collectOnce,
+      this.lateItems⟩
 
 end Strax.FS
